@@ -3,6 +3,7 @@ package server
 import (
 	"context"
 	"encoding/binary"
+	"time"
 
 	"github.com/gopcua/opcua/ua"
 	"github.com/gopcua/opcua/uacp"
@@ -116,6 +117,11 @@ func (c *vfRaw) write(h *vfHist, id *ua.NodeID, v int32) {
 	c.writeDV(h, id, int64(v), &ua.DataValue{EncodingMask: ua.DataValueValue, Value: ua.MustVariant(v)})
 }
 
+// writeAt writes a value with an explicit source timestamp (a client's own clock)
+func (c *vfRaw) writeAt(h *vfHist, id *ua.NodeID, v int32, unixSec int64) {
+	c.writeDV(h, id, int64(v), &ua.DataValue{EncodingMask: ua.DataValueValue | ua.DataValueSourceTimestamp, Value: ua.MustVariant(v), SourceTimestamp: time.Unix(unixSec, 0).UTC()})
+}
+
 // writeNull writes a DataValue that carries a status but no value
 func (c *vfRaw) writeNull(h *vfHist, id *ua.NodeID, st ua.StatusCode) {
 	c.writeDV(h, id, vfNull|int64(st), &ua.DataValue{EncodingMask: ua.DataValueStatusCode, Status: st})
@@ -218,6 +224,8 @@ func VerifH_C34_Linearizable() {
 		case 3: // a value, then a status without a value (e.g. a sensor failure)
 			a.write(h, id, x)
 			a.writeNull(h, id, ua.StatusBadSensorFailure)
+		case 4: // the clients stamp their writes with their own clocks, and A's clock is ahead
+			a.writeAt(h, id, x, 1700000100)
 		}
 		done <- true
 	}()
@@ -231,6 +239,9 @@ func VerifH_C34_Linearizable() {
 			b.read(h, id)
 		case 2, 3:
 			b.read(h, id)
+			b.read(h, id)
+		case 4:
+			b.writeAt(h, id, y, 1700000050)
 			b.read(h, id)
 		}
 		done <- true
